@@ -132,7 +132,8 @@ def make_hmc(h, d, events, mass="scalar", bounds=None, temperature=True, steps=1
     import inference.mcmc.utilities as ut
     h.patch(hmc, float64=object, isfinite=funcs.isfinite, zeros=ozeros)
     h.patch(ut, np_divmod=stubs.np_divmod)
-    h.patch(ms, cholesky=stubs.cholesky, solve_triangular=stubs.solve_triangular)
+    from symnp.core import SymReal as _SR
+    h.patch(ms, cholesky=stubs.cholesky, solve_triangular=stubs.solve_triangular, isscalar=lambda x: isinstance(x, _SR) or np.isscalar(x))
     fam, dfam = family if family else (None, None)
     post = recording_posterior(h, d, events, family=fam)
     grad = recording_gradient(h, d, events, family=dfam) if use_grad else None
